@@ -329,6 +329,10 @@ func TestVerifC13Helper(t *testing.T) {
 		c13HelperHistory()
 	case "worker":
 		c13HelperWorker()
+	case "ptreader":
+		c13HelperPtReader()
+	case "ptwriter":
+		c13HelperPtWriter()
 	}
 }
 
@@ -725,7 +729,7 @@ func c13CleanDrain() {
 // ---------------------------------------------------------------- test entry
 
 type c13Replay struct {
-	Part string `json:"part"` // crash, interleave, bfs, conf, chunk, history
+	Part string `json:"part"` // crash, interleave, pt, bfs, conf, chunk, history
 	// crash
 	Prefix  int    `json:"prefix,omitempty"`
 	Choice  []int8 `json:"choice,omitempty"`
@@ -737,6 +741,8 @@ type c13Replay struct {
 	// bfs / conf
 	Ops []c13Op `json:"ops,omitempty"`
 	FS  string  `json:"fs,omitempty"`
+	// pt
+	PT *c13PtRun `json:"pt,omitempty"`
 }
 
 type c13Ctx struct {
@@ -803,6 +809,9 @@ func TestVerifC13(t *testing.T) {
 		if c.replay == nil || c.replay.Part == "conf" {
 			c13PartConf(c, v)
 		}
+	}
+	if c.replay == nil || c.replay.Part == "pt" {
+		c13PartPT(c, variants[0].Parent)
 	}
 	for _, v := range variants {
 		if c.replay != nil && c.replay.FS != "" && c.replay.FS != v.Name && len(variants) > 1 {
